@@ -67,6 +67,43 @@ def generate(seed, tier="quick"):
         elif k < 0.69 and persisted < 2:
             ops.append({"op": "persist", "how": o.choice(["pickle", "deepcopy"])})
             persisted += 1
+            dw.epoch += 1
+        elif k < 0.80:
+            # view handles kept in variables by the session: created once, used by later calls
+            hid = o.randrange(3)
+            valid = [i_ for i_, h_ in dw.handles.items() if h_["epoch"] == dw.epoch]
+            kk = o.random()
+            if not valid or kk < 0.3:
+                op = {"op": "make_handle", "id": hid, "view": gen_node_view(o, dw.ref)}
+                if dw.dry_apply(op) == "accept":
+                    ops.append(op)
+                    if (dw.ref.recordings or dw.ref.externals) and o.random() < 0.5:
+                        # delete through the fresh handle, then keep selecting through the same handle object
+                        d = {"op": o.choice(["delete_recordings", "delete_stimuli", "delete_clamps"]), "view": [["handle", hid]]}
+                        if d["op"] == "delete_clamps":
+                            d["state"] = None
+                        if dw.dry_apply(d) == "accept":
+                            ops.append(d)
+                        ops.append({"op": "view", "view": [["handle", hid]] + gen_node_view(o, dw.ref)[:2]})
+            else:
+                hid = o.choice(valid)
+                kind = o.choice(["group", "group", "set", "record", "stimulate", "move", "view", "view"])
+                hv = [["handle", hid]] + ([[o.choice(["branch", "comp"]), idx(o, 2)]] if o.random() < 0.3 else [])
+                if kind == "view":
+                    ops.append({"op": "view", "view": hv})
+                    continue
+                if kind == "group":
+                    op = {"op": "group", "view": hv, "name": o.choice(["g1", "g2", "g3", "g4"])}
+                elif kind == "set":
+                    op = {"op": "set", "view": hv, "key": o.choice(["radius", "length", "capacitance", "v"]), "val": {"seed": o.randrange(1 << 30)}}
+                elif kind == "record":
+                    op = {"op": "record", "view": hv, "state": "v"}
+                elif kind == "stimulate":
+                    op = {"op": "stimulate", "view": hv, "len": cfg["L"], "seed": o.randrange(1 << 30), "two_d": False}
+                else:
+                    op = {"op": "move", "view": hv, "xyz": [1.0, 2.0, 3.0]}
+                if dw.dry_apply(op) != "unspec":
+                    ops.append(op)
         else:
             op = gen_op(o, dw, mw, cfg)
             if op is not None and dw.dry_apply(op) != "unspec":
